@@ -157,7 +157,8 @@ func taskfile(c Cfg) string {
 	for _, n := range []string{t, u} {
 		fmt.Fprintf(&b, "  '%s':\n    desc: task %s\n    method: %s\n%s", n, n, c.Method, c.sourcesYAML())
 		if c.Gen {
-			b.WriteString("    generates: [out.gen]\n")
+			// two entries, the second a brace pattern: every generated file has to exist, not just one of them
+			b.WriteString("    generates: [out.gen, 'extra{1,2}.gen']\n")
 		}
 		if c.Status {
 			// two status commands: the first is the one the driver controls, the last always passes
@@ -171,7 +172,7 @@ func taskfile(c Cfg) string {
 		}
 		b.WriteString("    cmds:\n      - echo 1 >> \"$TRACE\"\n      - task: pre\n      - test ! -f \"$CTL/cancelsib\" || sleep 2\n      - test ! -f \"$CTL/fail1\"\n      - test ! -f \"$CTL/kill1\" || sh -c 'kill -KILL $PPID'\n")
 		if c.Gen {
-			b.WriteString("      - touch out.gen\n")
+			b.WriteString("      - touch out.gen extra1.gen extra2.gen\n")
 		}
 		b.WriteString("      - echo 2 >> \"$TRACE\"\n      - test ! -f \"$CTL/fail2\"\n      - test ! -f \"$CTL/kill2\" || sh -c 'kill -KILL $PPID'\n")
 	}
